@@ -239,21 +239,19 @@ theorem export_after_alter (m : Mdl K) (hs : m.isSetup = true) (p uid : Nat) (x 
   rw [modAt_get_same, hc]
   cases (q.tc && m.addressed) <;> simp [alterCell, setVCell, setVinCell]
 
-/-- the json writer writes the current input values only when the cached snapshot is absent
-(`_partial`: the full statement "for every history" is FALSE for the real code, see `json_export_stale`) -/
-theorem export_json_partial (m : Mdl K) (hs : m.isSetup = true) (hc : m.cache = none) :
+/-- **the json writer writes the input values as they are now**, after any operation history (full strength
+since the repair of `io.json._dump_system`, which wrote the cached `df_in` snapshot without refreshing it:
+`known_findings.json`, `json-export-stale`, fixed) -/
+theorem export_json (m : Mdl K) (hs : m.isSetup = true) :
     written m .dumpJson = some (m.params.map (fun p => p.cells.map (·.vin))) := by
-  simp [written, exportNow, hs, hc]
+  simp [written, exportNow, hs]
 
-example : ∃ m : Mdl ℚ, m.isSetup = true ∧ m.cache = none ∧ m.params ≠ [] :=
-  ⟨{ hasBus := false, hasBus1 := false, hasNode := false, hasNode1 := false, inPflow := false, inTds := true,
-     Sb := 100, ext := [], params := [⟨[], .none, false, []⟩], isSetup := true, tdsInit := false,
-     addressed := false, cache := none }, rfl, rfl, by simp⟩
+/-- both writers write the same table -/
+theorem export_json_eq_xlsx (m : Mdl K) : written m .dumpJson = written m .dumpXlsx := rfl
 
-/-- **Counterexample (finding `json-export-stale`)**: set-up fills `cache.df_in` (through
-`store_adder_setter`'s `cache.refresh()`), `alter` changes `vin` to 9.99, the json export still writes 3,
-the xlsx export of the same state writes 9.99. -/
-theorem json_export_stale :
+/-- the history that failed on the pinned tree (set-up fills the cache, `alter` changes `vin` to 9.99): both
+exports now write 9.99 -/
+theorem json_export_after_alter_witness :
     let m : Mdl ℚ :=
       { hasBus := false, hasBus1 := false, hasNode := false, hasNode1 := false, inPflow := true,
         inTds := false, Sb := 100, ext := [⟨1, 1, 1, 1⟩],
@@ -261,7 +259,7 @@ theorem json_export_stale :
         addressed := false, cache := none }
     let m1 := run m [.setup, .alter 0 0 (999/100) .v false]
     m1.params.map (·.cells.map (·.vin)) = [[999/100]] ∧
-    written m1 .dumpJson = some [[3]] ∧ written m1 .dumpXlsx = some [[999/100]] := by
+    written m1 .dumpJson = some [[999/100]] ∧ written m1 .dumpXlsx = some [[999/100]] := by
   decide +kernel
 
 /-! ## reset -/
